@@ -1,4 +1,5 @@
 import PsV.Proofs.FitsWrite
+import PsV.Proofs.FitsBytes
 /-!
 # C08 — interrupted or failing writes never pass as success or load as another table
 
@@ -101,5 +102,54 @@ theorem C08_close_error_swallowed :
 theorem C08_close_error_reported :
     (writeFits ⟨1, true, 0, true⟩ (fun i => i != 12)).outcome = .failure ∧
     (Step.remove, true) ∈ (writeFits ⟨1, true, 0, true⟩ (fun i => i != 12)).trace := by decide
+
+/-! Part 2: bytes.  `PsV.C08.encode` is compared byte for byte with the file cfitsio writes, `PsV.C08.readBytes`
+    verdict for verdict with the real reader on every crash-state file, on every run. -/
+
+/-- C08 (reader): whatever orders, axes, coefficients and knots the reader extracts from a truncated file, it extracts
+    exactly the same from every extension of that file — for *arbitrary* bytes, not only for encodings.  The reader
+    never takes end-of-file for data: an incomplete header means "no such HDU", incomplete data blocks mean failure. -/
+theorem C08_reader_prefix_stable (bs : Bytes) (n : Nat) (c : Core)
+    (h : readCoreBytes (bs.take n) = some c) : readCoreBytes bs = some c :=
+  readCoreBytes_prefix (List.take_prefix n bs) c h
+
+/- Full statement of C08_prefix_safe:
+     ∀ t (wf : t well-formed: ndim ≥ 1, matching lengths, values in range, extra cards not named END/ORDERn/NAXISn/…) n,
+       readBytes ((encode t).take n) = none ∨ ∃ v, readBytes ((encode t).take n) = some v ∧ v.core = t.core
+   Proved below with the round trip `readCoreBytes (encode t) = some t.core` as a hypothesis instead of deriving it
+   from well-formedness (missing: the card-level round-trip lemmas — decimal formatting of values and of the index in
+   ORDERn/NAXISn/KNOTSn names, and `cardsOf ∘ flatten`).  The hypothesis is evaluated by the driver for every table the
+   check generates (`rt=1`, a test) and proved for the instance `tinyTable` below. -/
+/-- C08 (crash safety of the file format as written): every byte prefix of the file of a table that round-trips is
+    either rejected or loads with orders, axes, coefficients and knots equal to the table's. -/
+theorem C08_prefix_safe_partial (t : Table) (n : Nat) (hrt : readCoreBytes (encode t) = some t.core) :
+    readBytes ((encode t).take n) = none ∨
+    ∃ v, readBytes ((encode t).take n) = some v ∧ v.core = t.core := by
+  cases hv : readBytes ((encode t).take n) with
+  | none => exact Or.inl rfl
+  | some v =>
+    refine Or.inr ⟨v, rfl, ?_⟩
+    have h1 : readCoreBytes ((encode t).take n) = some v.core := readTable_core hv
+    have h2 := C08_reader_prefix_stable (encode t) n v.core h1
+    rw [hrt] at h2
+    exact (Option.some.inj h2).symm
+
+/-- smallest table: one dimension, order 0, two knots, one coefficient, extents -/
+def tinyTable : Table :=
+  ⟨[0], [1], [1065353216], [[4607182418800017408, 4611686018427387904]], some [4607182418800017408, 4611686018427387904], []⟩
+
+set_option maxRecDepth 100000 in
+/-- the round-trip hypothesis holds for `tinyTable` (kernel evaluation of encoder and reader on its 17 280 bytes) -/
+theorem C08_roundtrip_instance : readCoreBytes (encode tinyTable) = some tinyTable.core := by decide
+
+set_option maxRecDepth 100000 in
+/-- hypotheses of `C08_reader_prefix_stable` are satisfiable: the file cut after the knot HDU (no `EXTENTS`) loads -/
+example : readCoreBytes ((encode tinyTable).take 11520) = some tinyTable.core := by decide
+
+/-- C08_prefix_safe, full strength, for `tinyTable`: every byte prefix is rejected or loads equal. -/
+theorem C08_prefix_safe_tiny (n : Nat) :
+    readBytes ((encode tinyTable).take n) = none ∨
+    ∃ v, readBytes ((encode tinyTable).take n) = some v ∧ v.core = tinyTable.core :=
+  C08_prefix_safe_partial tinyTable n C08_roundtrip_instance
 
 end PsV
